@@ -147,6 +147,35 @@ fn gen_opt_graph(rng: &mut Rng) -> Result<(Context, Vec<String>)> {
             }
         }
     }
+    // randomising permutation helpers (CuckooToPermutation, DecomposeSwitchingMap, RandomPermutation):
+    // twice on the same node (must not be merged) or on a constant (must not be folded)
+    if rng.chance(1, 3) {
+        let tt = array_type(vec![16], UINT64);
+        let mut table = vec![u64::MAX; 16];
+        table[1] = 2;
+        table[6] = 0;
+        table[7] = 3;
+        table[12] = 1;
+        let smap: Vec<u64> = vec![1, 4, 4, 5, 7, 2, 4, 1];
+        let which = rng.below(3);
+        let src = if rng.chance(1, 2) {
+            feats.push("randomising-on-constant".to_owned());
+            if which == 0 { g.constant(tt.clone(), Value::from_flattened_array(&table, UINT64)?)? } else { g.constant(array_type(vec![8], UINT64), Value::from_flattened_array(&smap, UINT64)?)? }
+        } else {
+            feats.push("randomising-on-input".to_owned());
+            if which == 0 { g.input(tt.clone())? } else { g.input(array_type(vec![8], UINT64))? }
+        };
+        let mk = |n: &Node| -> Result<Node> {
+            match which {
+                0 => n.cuckoo_to_permutation()?.get_slice(vec![SliceElement::SubArray(Some(0), Some(2), None)]),
+                1 => n.decompose_switching_map(16)?.tuple_get(0)?.get_slice(vec![SliceElement::SubArray(Some(0), Some(2), None)]),
+                _ => n.get_graph().random_permutation(2),
+            }
+        };
+        let a = mk(&src)?;
+        let b = mk(&src)?;
+        vals.push(a.add(b)?);
+    }
     // output depends on a random subset: sum of some values
     let mut out = vals[rng.below(vals.len() as u64) as usize].clone();
     for v in vals.iter() {
@@ -174,8 +203,17 @@ fn reachable(g: &Graph) -> Result<HashSet<u64>> {
     Ok(seen)
 }
 
+/// the oracle's OWN classification (independent of graphs.rs predicates, which are under test)
 fn is_rand_or_prf(op: &Operation) -> bool {
-    op.is_prf_operation() || op.is_randomizing().unwrap_or(false)
+    matches!(
+        op,
+        Operation::Random(_)
+            | Operation::RandomPermutation(_)
+            | Operation::CuckooToPermutation
+            | Operation::DecomposeSwitchingMap(_)
+            | Operation::PRF(_, _)
+            | Operation::PermutationFromPRF(_, _)
+    )
 }
 
 pub fn corr(run: &mut Run) {
@@ -282,7 +320,7 @@ pub fn corr(run: &mut Run) {
             if !is_rand_or_prf(&op) {
                 continue;
             }
-            let kind = if op.is_prf_operation() { "prf" } else { "random" };
+            let kind = if matches!(op, Operation::PRF(_, _) | Operation::PermutationFromPRF(_, _)) { "prf" } else { "random" };
             if !m.mappings.contains_node(&n) {
                 if reach.contains(&n.get_id()) {
                     run.oracle_fail(&format!("C04:optimizer:dropped-needed:{}", kind), format!("{} : node {} is needed by the output but has no image", descr, n.get_id()));
